@@ -41,18 +41,14 @@ Definition arity_ok (r : mprow) : bool := (m_ncparams r =? -1) || (m_ndummies r 
 Definition mp_ok (r : mprow) : bool :=
   arity_ok r && forallb (out_ok (m_cfunc r)) (m_outs r) && match m_unassigned r with [] => true | _ => false end.
 
-(* rows of the CURRENT code known to violate mp_ok (kept visible; notes/C20f.md round 5, notes/C20-fixes/02..04):
-   cg_coord_id_f              coord_id is a LOCAL variable, not a dummy: 5 dummies for 5 C parameters, output never returned
-   cg_discrete_ptset_write_f  the output index D is never assigned from i_D
-   cg_family_name_read_f, cg_node_family_name_read_f   c_family is 33 bytes, the C function copies a family path (<= 661)
-   cg_particle_read_f, cg_particle_coord_node_read_f, cg_particle_coord_info_f, cg_particle_sol_info_f, cg_particle_field_info_f,
-   cg_piter_read_f      the C buffer is CHARACTER(LEN=LEN_TRIM(<caller's variable>)+1): its size depends on what the caller's
-                        variable happens to hold (1 byte for a blank variable), the C function writes up to 33 bytes
-   cg_particle_model_read_f   same declaration, and the label (an INPUT of the C function) is never copied into it *)
-Definition mp_known : list string :=
-  [ "cg_coord_id_f"; "cg_discrete_ptset_write_f"; "cg_family_name_read_f"; "cg_node_family_name_read_f";
-    "cg_particle_read_f"; "cg_particle_coord_node_read_f"; "cg_particle_coord_info_f"; "cg_particle_sol_info_f";
-    "cg_particle_field_info_f"; "cg_piter_read_f"; "cg_particle_model_read_f" ].
+(* rows of the CURRENT code known to violate mp_ok.  Empty since 9418046, 26cde09, f901b55, 763a68d (notes/C20-fixes/02, 03, 04, 06
+   are in /repo).  The eleven procedures that were listed here: cg_coord_id_f (coord_id was a local variable, not a dummy),
+   cg_discrete_ptset_write_f (D never assigned from i_D), cg_family_name_read_f / cg_node_family_name_read_f (33-byte c_family for a
+   family path of up to 661 bytes), cg_particle_read_f, cg_particle_coord_node_read_f, cg_particle_coord_info_f,
+   cg_particle_sol_info_f, cg_particle_field_info_f, cg_piter_read_f (C buffer of LEN_TRIM(<caller's variable>)+1 bytes) and
+   cg_particle_model_read_f (same, and the label never passed to C): if any of these shapes comes back,
+   C20f_modproc_table_checked fails.  The literal witness rows below stay as the refuted model of the old code. *)
+Definition mp_known : list string := [ ].
 Definition mp_row_known (r : mprow) : bool := mem (m_proc r) mp_known.
 Definition mp_bad_rows (t : list mprow) : list string := map m_proc (filter (fun r => negb (mp_ok r)) t).
 Definition mp_table_ok (t : list mprow) : bool := forallb (fun r => mp_ok r || mp_row_known r) t.
